@@ -489,7 +489,7 @@ def main(res, tier, rng, replay):
     res.cov['pass_limit_in_source'] = lim_tag
     lim = lim_tag
 
-    n_designs = 220 if tier == 'quick' else 4000
+    n_designs = 220 if tier == 'quick' else 1500
     reqs, expect, info = [], [], []
     nb = D.NetBatch(res, 'net-sim')
     maxpasses = 0
@@ -576,7 +576,7 @@ def main(res, tier, rng, replay):
 
     for i in range(n_designs):
         r = rng.fork(('d', i))
-        size = r.choice([2, 3, 5, 8, 13, 30]) if tier == 'quick' else r.choice([2, 3, 5, 8, 13, 30, 80, 200])
+        size = r.choice([2, 3, 5, 8, 13, 30]) if tier == 'quick' else r.choice([2, 3, 5, 8, 13, 30, 30, 80, 120])
         # every fifth design spreads its leaves over several clock domains (gated drivers on containers): combinational paths
         # cross the domains and must be ordered like any other path
         plan = G.random_plan(r, size, seq_ratio=(1, 6), wmax=r.choice([1, 3, 8]),
